@@ -258,7 +258,7 @@ func Main(args []string) int {
 				}
 				cs = append(cs, n)
 			}
-			x, err := Replay(h.Sched(*v), cs, *nrep)
+			x, err := Replay(h.Sched(*v), cs, *nrep, v.MaxSteps)
 			type rep struct {
 				Err      string    `json:"error,omitempty"`
 				Log      []string  `json:"log"`
